@@ -595,7 +595,7 @@ def run(report):
     from ..contracts import refimpl as _refimpl
     try:
         _run(report)
-    except (_GenError, NotImplementedError, KeyError, AttributeError, TypeError) as e:
+    except Exception as e:  # left the modelled subset: fault + executable-contract search
         _refimpl.generation_fallback(report, 'gate', UNIT, f"{type(e).__name__}: {e}", seed())
 
 
